@@ -53,19 +53,22 @@ HdrKinds == CLKinds \cup HRejectKinds \cup TEKinds \cup OtherKinds
 SizeOk == {"S1", "S2", "S1ext", "S1lz", "S1bws", "S3"}
 SizeVal(s) == CASE s \in {"S1", "S1ext", "S1lz", "S1bws", "S1extlf"} -> 1 [] s = "S2" -> 2 [] s = "S3" -> 3 [] OTHER -> 0
 LastOk == {"Z0", "Z0ext", "Z00"}
-SizeBad == {"Sbad",     \* 1x, 0x1, +1, -1, " 1", "1 " (no extension), 1_0
+SizeBad == {"Sbad",     \* 1x, -1, 1_0, g, ... : not HEXDIG
+            "Sbad1",    \* +1, 0x1, " 1", "1 ", "1\t": not HEXDIG either, but int(x, 16) = 1
             "Sempty"}   \* empty size (";ext" or nothing)
 SizeDontCare == {"S1extlf"}  \* bare LF / CR inside a chunk extension
 SizeKinds == SizeOk \cup LastOk \cup SizeBad \cup SizeDontCare
 
 LineSyms == RLAll \cup HdrKinds \cup SizeKinds
 PAD == "P"     \* one more byte of line content (longer target / value / chunk extension)
+JUNK == "J"    \* a byte that is neither CR nor LF where the CRLF after chunk data should be
 
 -----------------------------------------------------------------------------
 (* Message descriptor:                                                     *)
 (*   [rl, hdrs: Seq(HdrKinds), fr: "none"|"len"|"chunked",                 *)
 (*    n: data bytes present for fr="len",                                  *)
-(*    chunks: Seq([sz: size symbol, n: data bytes present, term: BOOLEAN]),*)
+(*    chunks: Seq([sz: size symbol, n: data bytes present, term: BOOLEAN,  *)
+(*                 junk: JUNK bytes in place of a missing CRLF]),          *)
 (*    last: last-chunk symbol or "none", trl: Seq(HdrKinds),               *)
 (*    pad: [rl, h, c, t] extra PAD symbols on the request line, the first  *)
 (*         header line, the first chunk-size line, the first trailer line] *)
@@ -86,7 +89,7 @@ FlatChunks(cs, pad) ==
   IF cs = <<>> THEN <<>>
   ELSE LET c == Head(cs) IN
        SizeLine(c.sz, pad) \o Rep(X, c.n)
-         \o (IF c.term THEN <<CR, LF>> ELSE <<>>) \o FlatChunks(Tail(cs), 0)
+         \o (IF c.term THEN <<CR, LF>> ELSE Rep(JUNK, c.junk)) \o FlatChunks(Tail(cs), 0)
 
 FlatBody(m) ==
   CASE m.fr = "len" -> Rep(X, m.n)
@@ -206,6 +209,6 @@ WellLaidOut(m) ==
             /\ \A i \in DOMAIN m.chunks :
                  LET c == m.chunks[i] IN
                  IF c.sz \in SizeOk \cup SizeDontCare THEN c.n = SizeVal(c.sz)
-                 ELSE c.n = 0 /\ ~c.term
+                 ELSE TRUE
 
 =============================================================================
